@@ -30,6 +30,9 @@ var commonAssumptions = []string{
 var microReal = []string{"internal/circuitbreaker", "internal/ratelimiter", "internal/loadbalancer (strategies, health, pool, ServeHTTP)", "internal/metrics", "internal/adminapi", "internal/plugins", "internal/logging middleware", "internal/utils", "net/http/httputil.ReverseProxy"}
 var microStub = []string{"backend connections (scripted RoundTripper behind the WrapTransport/WrapClient seam)", "http.Server front (in-memory ResponseWriter with Flusher/Hijacker)", "clock (synctest fake clock)", "goroutine choice at every sync/atomic/go seam (seeded scheduler)"}
 
+var sysReal = []string{"cmd/helios buildHandler + createHTTPServer", "net/http.Server", "internal/loadbalancer", "net/http/httputil.ReverseProxy", "net/http.Transport", "internal/plugins", "internal/logging middleware", "internal/metrics", "internal/circuitbreaker", "internal/ratelimiter"}
+var sysStub = []string{"TCP/IP (simnet: in-memory, driver-mediated delivery)", "backends (scripted byte-level HTTP/1.1 peers)", "clients (raw HTTP/1.1 writers/readers)", "clock (synctest)", "main()/signals/TLS not run"}
+
 var plans = map[string]*Plan{
 	"C07": {
 		Level:     "exploration",
@@ -130,5 +133,13 @@ var plans = map[string]*Plan{
 		Rule:        "Scenario ids: the real RequestContextMiddleware, default/custom header names, features on/off, client-supplied values (empty, padded, long, unusual), 1-8 (thorough 8-64) concurrent tasks generating identifiers at one frozen virtual instant; pairwise distinctness, echo, handler-sees-what-client-gets.",
 		Real:        []string{"internal/logging middleware"}, Stub: []string{"inner handler", "ResponseWriter", "clock"}, Assumptions: commonAssumptions,
 		ExpectProbes: []string{"ids-generated"},
+	},
+	"C01": {
+		Level:     "exploration",
+		Scenarios: []ScenPlan{{"sysxfer", 12000, 250000}},
+		QuickWallS: 150, ThoroughWallS: 1700,
+		Rule:        "Scenario sysxfer: real http.Server + handler chain + balancer + ReverseProxy + http.Transport over simnet; 1-3 raw clients, 1-4 scripted backends (optional base paths), 3-10 exchanges per run with drawn methods, escaped paths, multi-valued / odd-cased headers, bodies 0-200KB in Content-Length or chunked framing split into writes, every status class incl. 103/204/304/3xx/4xx/5xx, streamed responses (chunked / SSE with 2-5s pauses); the seed picks the interleaving of deliveries, fragment sizes and small delays. Differential oracle: what each end sent vs what the other end received; flushed bytes must arrive before the backend's next write (fake-clock timestamps).",
+		Real:        sysReal, Stub: sysStub, Assumptions: commonAssumptions,
+		ExpectProbes: []string{"stream-gap-checked"},
 	},
 }
